@@ -203,3 +203,16 @@ CLAIMED["C16"] = dict(
   note=("Trusted: as C09; Arith.lean as the model of the dunder methods (NotImplemented protocol collapsed to TypeError); Cal.toOrdinal/ofOrdinal as the model of "
         "datetime arithmetic (validated against datetime). Partial: only Serial is proved for all operands; immutability holds in the model by construction and is observed on the real objects."),
   design="§6 C16")
+
+CLAIMED["C18"] = dict(
+  technique="Lean 4 proof: rendering agreement for every value by reduction to the shared rendering functions and the regenerated configuration; pattern-table agreement by kernel evaluation; kernel-evaluated parse instances",
+  text=("Theorems: C18_serial_render - for every shared Serial directive (%n %p %b %c %u) and EVERY natural number the asset-defined and the classic Serial render the same text; "
+        "C18_datetime_render - for every shared Datetime directive (%n %Y %m %d %H %M %S) and EVERY instant the two render the same text (the classic table's strftime pattern "
+        "of each directive is the asset's, on the regenerated tables); C18_serial_patterns / C18_same_compiled - the patterns of %n %p %c %u and the anchors are identical in "
+        "the two regenerated tables and formats over them compile to the same pattern text (%b is an 8-bit field in the asset table, unbounded in the classic one); "
+        "C18_parse_instances - kernel-evaluated: strings both accept are read as the same value in strict and non-strict mode, contradictory statements are rejected by both in "
+        "strict mode, impossible dates by both. Agreement of parsed values for all strings and formats, of arithmetic and ordering, and the round trip on the asset formatters' "
+        "own directives are decided by the sweep (classic formatters as reference) and the correspondence (aserial.* / adatetime.* ops)."),
+  note=("Trusted: as C01; Assets.lean as the model of fmtutil/__assets.py (its Datetime renderer is strftime of the directive, validated by correspondence). Partial: parse agreement, "
+        "arithmetic and ordering for all inputs are validated, not proved. Defect repaired in /repo: asset Datetime - Datetime raised FormatterValueError."),
+  design="§6 C18")
